@@ -135,6 +135,7 @@ type whereevalT struct {
 	c        *Server
 	luaState *lua.LState
 	fn       *lua.LFunction
+	argv     *lua.LTable
 }
 
 func (whereeval whereevalT) Close() {
@@ -182,6 +183,7 @@ func (whereeval whereevalT) match(fieldsWithNames map[string]field.Value,
 			"ID":         lua.LString(id),
 			"FIELDS":     fieldsTbl,
 			"PROPERTIES": propsTbl,
+			"ARGV":       whereeval.argv,
 		})
 	defer func() {
 		luaSetRawGlobals(
@@ -465,7 +467,7 @@ func (s *Server) parseSearchScanBaseTokens(
 					s.luascripts.PutLRU(shaSum, fn.Proto)
 				}
 				t.whereevals = append(t.whereevals, whereevalT{
-					c: s, luaState: luaState, fn: fn,
+					c: s, luaState: luaState, fn: fn, argv: argsTbl,
 				})
 				continue
 			case "nofields":
